@@ -264,7 +264,8 @@ func (m *ModuleInstance) buildTables(module *Module, skipBoundCheck bool) (err e
 				// Ignore error as it's already validated.
 				globalIdx, _, _ := leb128.LoadUint32(elem.OffsetExpr.Data)
 				global := m.Globals[globalIdx]
-				offset = uint32(global.Val)
+				v, _ := global.Value()
+				offset = uint32(v)
 			} else { // i32.const
 				// Ignore error as it's already validated.
 				o, _, _ := leb128.LoadInt32(elem.OffsetExpr.Data)
